@@ -404,6 +404,10 @@ def _reg_coulomb_utils():
     op("spherical_harmonics", "AA", lambda: [th(), ph()],
        lambda v, cb: [ut.generate_real_spherical_harmonics(4, v[0], v[1]), ut.generate_real_spherical_harmonics_scipy(4, v[0], v[1]),
                       ut.generate_derivative_real_spherical_harmonics(3, v[0], v[1])], pairs=[(1, 2)])
+    op("coulomb_potential[normalized=False]", "AAAAAAA", lambda: [_pts(5, 2), _pts(2, 6), np.array([1.0, 0.5]), np.array([0.8, 2.0]), _pts(2, 6), np.array([0.3, 0.2]), np.array([1.1, 0.6])],
+       lambda v, cb: [co.coulomb_potential(v[0], v[1], v[2], v[3], v[4], v[5], v[6], normalized=False)], pairs=[(2, 5), (3, 6), (4, 7)])
+    op("solid_harmonics[longdouble points]", "A", lambda: [np.column_stack([np.linspace(0.1, 2, 5), th(), ph()]).astype(np.longdouble)],
+       lambda v, cb: [ut.solid_harmonics(4, v[0])])
     op("solid_harmonics", "A", lambda: [np.column_stack([np.linspace(0.1, 2, 5), th(), ph()])], lambda v, cb: [ut.solid_harmonics(3, v[0])])
     op("convert_cart_to_sph", "AA", lambda: [_pts(5, 2), np.array([0.1, 0.0, -0.3])], lambda v, cb: [ut.convert_cart_to_sph(v[0], v[1]), ut.convert_cart_to_sph(v[0])])
     op("dipole_moment_of_molecule", "GAAA", lambda: (lambda g: [g, _gauss(g.points), np.array([[0.0, 0, 0], [0, 0, 1.6]]), np.array([1, 8])])(Grid(_pts(9, 5), _w(9))),
